@@ -58,6 +58,10 @@ impl<F> MiniAllocator<F> {
         self.directory.sector_len()
     }
 
+    pub fn num_minifat_entries(&self) -> usize {
+        self.minifat.len()
+    }
+
     pub fn next_mini_sector(&self, sector_id: u32) -> io::Result<u32> {
         let index = sector_id as usize;
         if index >= self.minifat.len() {
@@ -236,11 +240,18 @@ impl<F: Write + Seek> MiniAllocator<F> {
     ) -> io::Result<u32> {
         debug_assert_ne!(start_mini_sector, consts::END_OF_CHAIN);
         let mut last_mini_sector = start_mini_sector;
+        // The MiniFAT of a damaged file (or one left inconsistent by an
+        // earlier I/O error) can contain dangling or cyclic chains.
+        let mut remaining_steps = self.minifat.len();
         loop {
-            let next = self.minifat[last_mini_sector as usize];
+            let next = self.next_mini_sector(last_mini_sector)?;
             if next == consts::END_OF_CHAIN {
                 break;
             }
+            if remaining_steps == 0 {
+                invalid_data!("Mini chain contains a cycle");
+            }
+            remaining_steps -= 1;
             last_mini_sector = next;
         }
         let new_mini_sector =
@@ -331,6 +342,14 @@ impl<F: Write + Seek> MiniAllocator<F> {
 
     /// Deallocates the specified mini sector.
     fn free_mini_sector(&mut self, mini_sector: u32) -> io::Result<()> {
+        if mini_sector as usize >= self.minifat.len() {
+            invalid_data!(
+                "Found reference to mini sector {}, but MiniFAT has only {} \
+                 entries",
+                mini_sector,
+                self.minifat.len()
+            );
+        }
         if self.minifat[mini_sector as usize] == consts::FREE_SECTOR {
             invalid_input!("sector {} freed twice", mini_sector);
         }
@@ -361,7 +380,7 @@ impl<F: Write + Seek> MiniAllocator<F> {
     ) -> io::Result<()> {
         let mut mini_sector = start_mini_sector;
         while mini_sector != consts::END_OF_CHAIN {
-            let next = self.minifat[mini_sector as usize];
+            let next = self.next_mini_sector(mini_sector)?;
             self.free_mini_sector(mini_sector)?;
             mini_sector = next;
         }
@@ -374,7 +393,7 @@ impl<F: Write + Seek> MiniAllocator<F> {
         &mut self,
         mini_sector: u32,
     ) -> io::Result<()> {
-        let next = self.minifat[mini_sector as usize];
+        let next = self.next_mini_sector(mini_sector)?;
         self.set_minifat(mini_sector, consts::END_OF_CHAIN)?;
         self.free_mini_chain(next)?;
         Ok(())
